@@ -261,3 +261,166 @@ package render
 //@   body 1 s.p0s[len(s.p0s) - 1] == (*ls[rangeindex + 1])[0] && s.p1s[len(s.p1s) - 1] == (*ls[rangeindex + 1])[1]
 //@   ensures [returns] true
 //@ end
+
+//-----------------------------------------------------------------------------
+// C07: the octree renderer loses nothing. Pieces (the induction over the
+// octree depth from the one-level contract is meta-argument A8(v)):
+//   cache      - dcache3.evaluate returns the lattice point and the shape's value there
+//   hdiag      - the half-diagonal table holds 1/2*sqrt(3)*2^i*resolution
+//   L1 pruning - isEmpty implies no lattice value inside the cube changes sign (1-Lipschitz field)
+//   one level  - processCube either prunes, or emits the cell of its 8 lattice corners, or
+//                visits each of its 8 children exactly once
+
+//@ spec lat3(dc *dcache3, k v3i.Vec) = dc.origin.Add(conv.V3iToV3(k).MulScalar(dc.resolution))
+//@ spec cacheinv3(dc *dcache3, k v3i.Vec) = maphas(dc.cache, k) ==> mapval(dc.cache, k) == dc.s.Evaluate(lat3(dc, k))
+//@ spec lip3r(s sdf.SDF3, a v3.Vec, b v3.Vec) = sq(s.Evaluate(a) - s.Evaluate(b)) <= a.Sub(b).Length2()
+
+//@ func dcache3.evaluate
+//@   property C07
+//@   id cache
+//@   modular
+//@   requires forall k v3i.Vec :: cacheinv3(dc, k)
+//@   ensures [lattice-point] r0 == lat3(dc, vi)
+//@   ensures [value-of-the-shape-there] r1 == dc.s.Evaluate(lat3(dc, vi))
+//@   ensures [cache-stays-correct] forall k v3i.Vec :: cacheinv3(dc, k)
+//@ end
+
+//@ func newDcache3
+//@   property C07
+//@   id hdiag
+//@   invariant 0 rangeindex >= -1 && rangeindex < len(dc.hdiag) && len(dc.hdiag) == n
+//@   invariant 0 forall k int :: 0 <= k && k <= rangeindex ==> dc.hdiag[k] == 0.5*sqrt(3*sq(real(pow2(k))*dc.resolution))
+//@   ensures [table-length] len(r.hdiag) == n
+//@   ensures [half-diagonals] forall k int :: 0 <= k && k < n ==> r.hdiag[k] == 0.5*sqrt(3*sq(real(pow2(k))*resolution))
+//@   ensures [fields] r.origin == origin && r.resolution == resolution && r.s == s
+//@   ensures [empty-cache] forall k v3i.Vec :: !maphas(r.cache, k)
+//@ end
+
+//@ func dcache3.isEmpty
+//@   property C07
+//@   id pruning-sound
+//@   forall t v3.Vec
+//@   requires c.n >= 1 && c.n < len(dc.hdiag) && dc.resolution > 0
+//@   requires forall k int :: 0 <= k && k < len(dc.hdiag) ==> dc.hdiag[k] == 0.5*sqrt(3*sq(real(pow2(k))*dc.resolution))
+//@   requires forall k v3i.Vec :: cacheinv3(dc, k)
+//@   requires forall a v3.Vec, b v3.Vec :: lip3r(dc.s, a, b)
+//@   requires 0 <= t.X && t.X <= real(pow2(c.n)) && 0 <= t.Y && t.Y <= real(pow2(c.n)) && 0 <= t.Z && t.Z <= real(pow2(c.n))
+//@   let half = real(pow2(c.n - 1))
+//@   let h = dc.hdiag[c.n]
+//@   let dq = v3.Vec{(t.X - half)*dc.resolution, (t.Y - half)*dc.resolution, (t.Z - half)*dc.resolution}
+//@   let ctr = lat3(dc, c.v.AddScalar(pow2(c.n - 1)))
+//@   let q = ctr.Add(dq)
+//@   assert [side-doubles] real(pow2(c.n)) == 2*half && half >= 1
+//@   assert [half-diagonal-squared] h >= 0 && sq(h) == 3*sq(half*dc.resolution)
+//@   assert [x-within-half-side] sq(t.X - half) <= sq(half)
+//@   assert [y-within-half-side] sq(t.Y - half) <= sq(half)
+//@   assert [z-within-half-side] sq(t.Z - half) <= sq(half)
+//@   assert [inside-the-half-diagonal-ball] dq.Length2() <= sq(h)
+//@   let e1 = dc.s.Evaluate(ctr)
+//@   let e2 = dc.s.Evaluate(q)
+//@   assert [lipschitz-instance] sq(e1 - e2) <= dq.Length2()
+//@   assert [centre-value-is-what-isEmpty-compares] r ==> abs(e1) >= h
+//@   assert [values-differ-by-at-most-the-half-diagonal] sq(e1 - e2) <= sq(h) && h >= 0
+//@   focus centre-value-is-what-isEmpty-compares values-differ-by-at-most-the-half-diagonal
+//@   ensures [no-sign-change-inside-a-pruned-cube] r ==> (e1 >= 0 ==> e2 >= 0) && (e1 <= 0 ==> e2 <= 0)
+//@ end
+
+//@ func mcToTriangles
+//@   property C07
+//@   id summary
+//@   trusted call sites see the cell generator as a function of its corners and values only; what it returns is the subject of C05
+//@   ensures [returns] true
+//@ end
+
+//@ func dcache3.processCube
+//@   property C07
+//@   id one-level
+//@   modular
+//@   requires c.n >= 1 && c.n < len(dc.hdiag)
+//@   requires forall k v3i.Vec :: cacheinv3(dc, k)
+//@   let pruned = abs(dc.s.Evaluate(lat3(dc, c.v.AddScalar(pow2(c.n - 1))))) >= dc.hdiag[c.n]
+//@   ensures [pruned-cube-emits-nothing-and-visits-nothing] pruned ==> nev("call:processCube") == 0 && nev(").Write") == 0 && nev("call:mcToTriangles") == 0
+//@   ensures [finest-cube-emits-exactly-its-cell] !pruned && c.n == 1 ==> nev(").Write") == 1 && nev("call:mcToTriangles") == 1 && nev("call:processCube") == 0 && evarg("call:mcToTriangles", 0, 2) == 0
+//@   ensures [cell-corners-are-the-lattice-points-in-table-order] !pruned && c.n == 1 ==> evarg("call:mcToTriangles", 0, 0)[0] == lat3(dc, c.v.Add(v3i.Vec{0, 0, 0})) && evarg("call:mcToTriangles", 0, 0)[1] == lat3(dc, c.v.Add(v3i.Vec{2, 0, 0})) && evarg("call:mcToTriangles", 0, 0)[2] == lat3(dc, c.v.Add(v3i.Vec{2, 2, 0})) && evarg("call:mcToTriangles", 0, 0)[3] == lat3(dc, c.v.Add(v3i.Vec{0, 2, 0})) && evarg("call:mcToTriangles", 0, 0)[4] == lat3(dc, c.v.Add(v3i.Vec{0, 0, 2})) && evarg("call:mcToTriangles", 0, 0)[5] == lat3(dc, c.v.Add(v3i.Vec{2, 0, 2})) && evarg("call:mcToTriangles", 0, 0)[6] == lat3(dc, c.v.Add(v3i.Vec{2, 2, 2})) && evarg("call:mcToTriangles", 0, 0)[7] == lat3(dc, c.v.Add(v3i.Vec{0, 2, 2}))
+//@   ensures [cell-values-are-the-shape-at-those-corners] !pruned && c.n == 1 ==> evarg("call:mcToTriangles", 0, 1)[0] == dc.s.Evaluate(lat3(dc, c.v.Add(v3i.Vec{0, 0, 0}))) && evarg("call:mcToTriangles", 0, 1)[1] == dc.s.Evaluate(lat3(dc, c.v.Add(v3i.Vec{2, 0, 0}))) && evarg("call:mcToTriangles", 0, 1)[2] == dc.s.Evaluate(lat3(dc, c.v.Add(v3i.Vec{2, 2, 0}))) && evarg("call:mcToTriangles", 0, 1)[3] == dc.s.Evaluate(lat3(dc, c.v.Add(v3i.Vec{0, 2, 0}))) && evarg("call:mcToTriangles", 0, 1)[4] == dc.s.Evaluate(lat3(dc, c.v.Add(v3i.Vec{0, 0, 2}))) && evarg("call:mcToTriangles", 0, 1)[5] == dc.s.Evaluate(lat3(dc, c.v.Add(v3i.Vec{2, 0, 2}))) && evarg("call:mcToTriangles", 0, 1)[6] == dc.s.Evaluate(lat3(dc, c.v.Add(v3i.Vec{2, 2, 2}))) && evarg("call:mcToTriangles", 0, 1)[7] == dc.s.Evaluate(lat3(dc, c.v.Add(v3i.Vec{0, 2, 2})))
+//@   ensures [coarser-cube-visits-each-of-its-eight-children-exactly-once] !pruned && c.n > 1 ==> nev("call:processCube") == 8 && nev(").Write") == 0 && nevmatch("call:processCube", 1, cube{c.v.Add(v3i.Vec{0, 0, 0}), c.n - 1}) == 1 && nevmatch("call:processCube", 1, cube{c.v.Add(v3i.Vec{pow2(c.n - 1), 0, 0}), c.n - 1}) == 1 && nevmatch("call:processCube", 1, cube{c.v.Add(v3i.Vec{0, pow2(c.n - 1), 0}), c.n - 1}) == 1 && nevmatch("call:processCube", 1, cube{c.v.Add(v3i.Vec{pow2(c.n - 1), pow2(c.n - 1), 0}), c.n - 1}) == 1 && nevmatch("call:processCube", 1, cube{c.v.Add(v3i.Vec{0, 0, pow2(c.n - 1)}), c.n - 1}) == 1 && nevmatch("call:processCube", 1, cube{c.v.Add(v3i.Vec{pow2(c.n - 1), 0, pow2(c.n - 1)}), c.n - 1}) == 1 && nevmatch("call:processCube", 1, cube{c.v.Add(v3i.Vec{0, pow2(c.n - 1), pow2(c.n - 1)}), c.n - 1}) == 1 && nevmatch("call:processCube", 1, cube{c.v.Add(v3i.Vec{pow2(c.n - 1), pow2(c.n - 1), pow2(c.n - 1)}), c.n - 1}) == 1
+//@   ensures [cache-stays-correct] forall k v3i.Vec :: cacheinv3(dc, k)
+//@ end
+
+//-----------------------------------------------------------------------------
+// C07, quadtree marching squares (same structure in 2D)
+
+//@ spec lat2(dc *dcache2, k v2i.Vec) = dc.origin.Add(conv.V2iToV2(k).MulScalar(dc.resolution))
+//@ spec cacheinv2(dc *dcache2, k v2i.Vec) = maphas(dc.cache, k) ==> mapval(dc.cache, k) == dc.s.Evaluate(lat2(dc, k))
+//@ spec lip2r(s sdf.SDF2, a v2.Vec, b v2.Vec) = sq(s.Evaluate(a) - s.Evaluate(b)) <= a.Sub(b).Length2()
+
+//@ func dcache2.evaluate
+//@   property C07
+//@   id cache
+//@   modular
+//@   requires forall k v2i.Vec :: cacheinv2(dc, k)
+//@   ensures [lattice-point] r0 == lat2(dc, vi)
+//@   ensures [value-of-the-shape-there] r1 == dc.s.Evaluate(lat2(dc, vi))
+//@   ensures [cache-stays-correct] forall k v2i.Vec :: cacheinv2(dc, k)
+//@ end
+
+//@ func newDcache2
+//@   property C07
+//@   id hdiag
+//@   invariant 0 rangeindex >= -1 && rangeindex < len(dc.hdiag) && len(dc.hdiag) == n
+//@   invariant 0 forall k int :: 0 <= k && k <= rangeindex ==> dc.hdiag[k] == 0.5*sqrt(2*sq(real(pow2(k))*dc.resolution))
+//@   ensures [table-length] len(r.hdiag) == n
+//@   ensures [half-diagonals] forall k int :: 0 <= k && k < n ==> r.hdiag[k] == 0.5*sqrt(2*sq(real(pow2(k))*resolution))
+//@   ensures [fields] r.origin == origin && r.resolution == resolution && r.s == s
+//@   ensures [empty-cache] forall k v2i.Vec :: !maphas(r.cache, k)
+//@ end
+
+//@ func dcache2.isEmpty
+//@   property C07
+//@   id pruning-sound
+//@   forall t v2.Vec
+//@   requires c.n >= 1 && c.n < len(dc.hdiag) && dc.resolution > 0
+//@   requires forall k int :: 0 <= k && k < len(dc.hdiag) ==> dc.hdiag[k] == 0.5*sqrt(2*sq(real(pow2(k))*dc.resolution))
+//@   requires forall k v2i.Vec :: cacheinv2(dc, k)
+//@   requires forall a v2.Vec, b v2.Vec :: lip2r(dc.s, a, b)
+//@   requires 0 <= t.X && t.X <= real(pow2(c.n)) && 0 <= t.Y && t.Y <= real(pow2(c.n))
+//@   let half = real(pow2(c.n - 1))
+//@   let h = dc.hdiag[c.n]
+//@   let dq = v2.Vec{(t.X - half)*dc.resolution, (t.Y - half)*dc.resolution}
+//@   let ctr = lat2(dc, c.v.AddScalar(pow2(c.n - 1)))
+//@   let q = ctr.Add(dq)
+//@   assert [side-doubles] real(pow2(c.n)) == 2*half && half >= 1
+//@   assert [half-diagonal-squared] h >= 0 && sq(h) == 2*sq(half*dc.resolution)
+//@   assert [x-within-half-side] sq(t.X - half) <= sq(half)
+//@   assert [y-within-half-side] sq(t.Y - half) <= sq(half)
+//@   assert [inside-the-half-diagonal-disc] dq.Length2() <= sq(h)
+//@   let e1 = dc.s.Evaluate(ctr)
+//@   let e2 = dc.s.Evaluate(q)
+//@   assert [lipschitz-instance] sq(e1 - e2) <= dq.Length2()
+//@   assert [centre-value-is-what-isEmpty-compares] r ==> abs(e1) >= h
+//@   assert [values-differ-by-at-most-the-half-diagonal] sq(e1 - e2) <= sq(h) && h >= 0
+//@   focus centre-value-is-what-isEmpty-compares values-differ-by-at-most-the-half-diagonal
+//@   ensures [no-sign-change-inside-a-pruned-square] r ==> (e1 >= 0 ==> e2 >= 0) && (e1 <= 0 ==> e2 <= 0)
+//@ end
+
+//@ func msToLines
+//@   property C07
+//@   id summary
+//@   trusted call sites see the cell generator as a function of its corners and values only; what it returns is the subject of C08
+//@   ensures [returns] true
+//@ end
+
+//@ func dcache2.processSquare
+//@   property C07
+//@   id one-level
+//@   modular
+//@   requires c.n >= 1 && c.n < len(dc.hdiag)
+//@   requires forall k v2i.Vec :: cacheinv2(dc, k)
+//@   let pruned = abs(dc.s.Evaluate(lat2(dc, c.v.AddScalar(pow2(c.n - 1))))) >= dc.hdiag[c.n]
+//@   ensures [pruned-square-emits-nothing-and-visits-nothing] pruned ==> nev("call:processSquare") == 0 && nev(").Write") == 0 && nev("call:msToLines") == 0
+//@   ensures [finest-square-emits-exactly-its-cell] !pruned && c.n == 1 ==> nev(").Write") == 1 && nev("call:msToLines") == 1 && nev("call:processSquare") == 0 && evarg("call:msToLines", 0, 2) == 0
+//@   ensures [cell-corners-are-the-lattice-points-in-table-order] !pruned && c.n == 1 ==> evarg("call:msToLines", 0, 0)[0] == lat2(dc, c.v.Add(v2i.Vec{0, 0})) && evarg("call:msToLines", 0, 0)[1] == lat2(dc, c.v.Add(v2i.Vec{2, 0})) && evarg("call:msToLines", 0, 0)[2] == lat2(dc, c.v.Add(v2i.Vec{2, 2})) && evarg("call:msToLines", 0, 0)[3] == lat2(dc, c.v.Add(v2i.Vec{0, 2}))
+//@   ensures [cell-values-are-the-shape-at-those-corners] !pruned && c.n == 1 ==> evarg("call:msToLines", 0, 1)[0] == dc.s.Evaluate(lat2(dc, c.v.Add(v2i.Vec{0, 0}))) && evarg("call:msToLines", 0, 1)[1] == dc.s.Evaluate(lat2(dc, c.v.Add(v2i.Vec{2, 0}))) && evarg("call:msToLines", 0, 1)[2] == dc.s.Evaluate(lat2(dc, c.v.Add(v2i.Vec{2, 2}))) && evarg("call:msToLines", 0, 1)[3] == dc.s.Evaluate(lat2(dc, c.v.Add(v2i.Vec{0, 2})))
+//@   ensures [coarser-square-visits-each-of-its-four-children-exactly-once] !pruned && c.n > 1 ==> nev("call:processSquare") == 4 && nev(").Write") == 0 && nevmatch("call:processSquare", 1, square{c.v.Add(v2i.Vec{0, 0}), c.n - 1}) == 1 && nevmatch("call:processSquare", 1, square{c.v.Add(v2i.Vec{pow2(c.n - 1), 0}), c.n - 1}) == 1 && nevmatch("call:processSquare", 1, square{c.v.Add(v2i.Vec{0, pow2(c.n - 1)}), c.n - 1}) == 1 && nevmatch("call:processSquare", 1, square{c.v.Add(v2i.Vec{pow2(c.n - 1), pow2(c.n - 1)}), c.n - 1}) == 1
+//@   ensures [cache-stays-correct] forall k v2i.Vec :: cacheinv2(dc, k)
+//@ end
